@@ -20,6 +20,7 @@ import (
 type dictT struct {
 	strs map[string][]string
 	ints map[string][]int
+	big  map[string][]int // constants above 4200: thresholds of accumulated quantities
 }
 
 var dictCache *dictT
@@ -28,7 +29,7 @@ func loadDict() *dictT {
 	if dictCache != nil {
 		return dictCache
 	}
-	d := &dictT{map[string][]string{}, map[string][]int{}}
+	d := &dictT{map[string][]string{}, map[string][]int{}, map[string][]int{}}
 	dictCache = d
 	path := os.Getenv("VERIF_DICT")
 	if path == "" {
@@ -53,6 +54,10 @@ func loadDict() *dictT {
 		case "i":
 			if x, err := strconv.Atoi(t[2]); err == nil {
 				d.ints[t[0]] = append(d.ints[t[0]], x)
+			}
+		case "I":
+			if x, err := strconv.Atoi(t[2]); err == nil {
+				d.big[t[0]] = append(d.big[t[0]], x)
 			}
 		}
 	}
@@ -216,5 +221,96 @@ func (g *gen) dictFamily(fam string) {
 				g.emit("tof %s %d", hx(c), g.intn(2))
 				g.emit("tofcs %s", hx(c))
 			}})
+	}
+}
+
+
+// dictThresholds: a large integer constant in a 1D package is taken as a threshold for an accumulated sum (check digit
+// arithmetic): contents of one repeated character whose value sum lands just below, at and above the constant — for the
+// check-character stage functions, and (when the symbol stays below about half a million characters) for the symbol itself.
+// The pinned tree has no such constant, so nothing is generated for it (seed y05: a partial-sum reduction above 2^24).
+func (g *gen) dictThresholds() {
+	d := loadDict()
+	type fam struct {
+		pkg  string
+		vals map[byte]int // character -> value in the check sum
+	}
+	for _, f := range []fam{{"code39", map[byte]int{'%': 42, 'Z': 35, '7': 7}}, {"code93", map[byte]int{'%': 42, 'Z': 35}}} {
+		for _, T := range d.big[f.pkg] {
+			for ch, v := range f.vals {
+				n := T / v
+				if n > 600000 {
+					continue
+				}
+				for dlt := -1; dlt <= 2; dlt++ {
+					c := strings.Repeat(string(ch), n+dlt)
+					if f.pkg == "code39" {
+						g.emit("st.c39.chk %s", hx(c))
+						if dlt >= 0 && dlt <= 1 && ch == '%' && n <= 20000 { // (a symbol of millions of modules is beyond the model driver)
+							g.emit("c39 %s 1 0", hx(c))
+						}
+					} else {
+						g.emit("st.c93.chk %s 20", hx(c))
+						g.emit("st.c93.chk %s 15", hx(c))
+					}
+				}
+				// a mixed tail: the character that crosses the threshold is not the repeated one
+				if f.pkg == "code39" {
+					g.emit("st.c39.chk %s", hx(strings.Repeat(string(ch), n-1)+"MA"))
+					g.emit("st.c39.chk %s", hx(strings.Repeat(string(ch), n-2)+"Z9K"))
+				}
+			}
+		}
+	}
+}
+
+
+// pow2Positions: a long run of the densest class of the family (so that the symbol still fits) whose length is 2^k-1,
+// 2^k or 2^k+1, followed by a short token of another class: the token then starts at a text position that is a power of
+// two — where a position packed into too few bits, a 16-bit counter or a page boundary would show (seed y03: the start
+// index of an Aztec binary-shift run kept in 12 bits is wrong from position 4096 on, reachable only behind 4096 digits).
+func (g *gen) pow2Positions(fam string) {
+	type cfg struct {
+		dense []func(n int) string
+		toks  []string
+		maxK  uint
+		emit  func(c string)
+	}
+	digitRun := func(n int) string { return g.str(digits, n) }
+	var c cfg
+	switch fam {
+	case "aztec":
+		c = cfg{dense: []func(int) string{digitRun, func(n int) string { return strings.Repeat("\r\n", n/2) }}, toks: []string{"\x80\x81\x82", "\xe9\xff", "\x00", "aB"}, maxK: 12,
+			emit: func(s string) { g.emit("aztec %s %d 0", hx(s), []int{0, 5}[g.intn(2)]) }}
+	case "qr":
+		c = cfg{dense: []func(int) string{digitRun, func(n int) string { return g.str("ABCDEFGHIJKLMNOPQRSTUVWXYZ0123456789 $%*+-./:", n) }}, toks: []string{"a", "\x80", "A"}, maxK: 11,
+			emit: func(s string) { g.emit("qr %s 0 %d", hx(s), []int{0, 3}[g.intn(2)]) }}
+	case "pdf":
+		c = cfg{dense: []func(int) string{digitRun, func(n int) string { return g.str("ABCDEFGH", n) }}, toks: []string{"a", "\x80\x81", ";", "\x80\x81\x82\x83\x84\x85"}, maxK: 10,
+			emit: func(s string) { g.emit("pdf %s %d", hx(s), g.intn(3)) }}
+	case "dm":
+		c = cfg{dense: []func(int) string{digitRun}, toks: []string{"a", "\x80", "\xff"}, maxK: 11,
+			emit: func(s string) { g.emit("dm %s", hx(s)) }}
+	default:
+		return
+	}
+	for k := uint(4); k <= c.maxK; k++ {
+		for d := -1; d <= 1; d++ {
+			n := 1<<k + d
+			for ri, run := range c.dense {
+				if k >= 10 && !g.thorough() && ri > 0 && d != 0 {
+					continue
+				}
+				for ti, t := range c.toks {
+					if k >= 10 && !g.thorough() && ti > 1 {
+						continue
+					}
+					c.emit(run(n) + t)
+					if ti == 0 {
+						c.emit(run(n) + t + run(5))
+					}
+				}
+			}
+		}
 	}
 }
